@@ -1784,6 +1784,8 @@ class LinkTimeExpressionEvaluator(ConstantExpressionEvaluator):
                 raise NotImplementedError()
         elif isinstance(expr, expressions.CompoundLiteral):
             cval = self.eval_compound_literal(expr)
-        else:  # pragma: no cover
-            raise NotImplementedError()
+        else:
+            self.codegenerator.error(
+                "Unsupported address constant", expr.location
+            )
         return cval
